@@ -84,7 +84,7 @@ def value_pool(rng, f, wide=False):
     if f.range == "bool":
         return ["1"]
     if f.range == "int":
-        base = [1, 2, 3, 5, 7, -1, -2, -4, 10]
+        base = [1, 1, 1, 2, 3, 5, 7, -1, -2, -4, 10]
         if wide:
             base += [1073741822, -1073741823, 100000, -99999]
         return [str(v) for v in base]
@@ -92,7 +92,7 @@ def value_pool(rng, f, wide=False):
     # 1e-5 (forest::setTerminalPrecision) and drop the last mantissa bit, so
     # only multiples of 1/2 (scaled: multiples of 32) are used: they and their
     # sums/products survive exactly.
-    base = [64, 128, 192, 32, 96, -64, -128, 320, 160, -32]
+    base = [64, 64, 64, 128, 192, 32, 96, -64, -128, 320, 160, -32]
     return [str(v) for v in base]
 
 
@@ -186,7 +186,37 @@ def gen_var(ctx, f, name=None):
     return name
 
 
+def gen_identityish(ctx, f, name=None):
+    """relation leaf made of identity blocks (from free, to unchanged) with the
+    neutral values 1 / small values: exercises skipped primed levels of
+    identity-reduced forests and the neutral-element shortcuts"""
+    rng = ctx.rng
+    name = name or ctx.fresh()
+    one = "64" if f.range == "real" else "1"
+    vals = [one, one, one] + ([] if f.range == "bool" else
+                              ["128", "192"] if f.range == "real" else ["2", "3", "7"])
+    parts = ["coll", name, f.name, "max", "0"]
+    for _ in range(rng.choice([1, 1, 2, 3])):
+        pos = []
+        for s in f.dom.sizes:
+            r = rng.random()
+            if r < 0.6:
+                pos += ["x", "="]
+            elif r < 0.75:
+                pos += [str(rng.randrange(s)), "="]
+            elif r < 0.9:
+                pos += ["x", "x"]
+            else:
+                pos += [str(rng.randrange(s)), str(rng.randrange(s))]
+        parts += [";"] + pos + ["=>", rng.choice(vals)]
+    ctx.emit(" ".join(parts))
+    ctx.edges[name] = f
+    return name
+
+
 def gen_leaf(ctx, f, name=None):
+    if f.rel and ctx.rng.random() < 0.3:
+        return gen_identityish(ctx, f, name)
     r = ctx.rng.random()
     if r < 0.6:
         return gen_coll(ctx, f, name)
@@ -220,10 +250,54 @@ def edges_in(ctx, pred):
 # property-specific generators: each returns the script text
 # ---------------------------------------------------------------------
 
+def gen_coll_evp(ctx, f, name=None):
+    """EV+ collection: values incl. +infinity, exact duplicates of minterms,
+    overlapping minterms, both combiners"""
+    rng = ctx.rng
+    name = name or ctx.fresh()
+    mode = rng.choice(["max", "min"])
+    vals = ["0", "1", "2", "3", "5", "8", "inf", "inf"]
+    # library contract: default <= all values (max) / >= all values (min)
+    deflt = "0" if mode == "max" else "inf"
+    if mode == "max" and rng.random() < 0.3:
+        deflt = "1"
+        vals = [v for v in vals if v != "0"]
+    n = rng.choice([1, 2, 3, 4, 6])
+    mts = []
+    for _ in range(n):
+        pos = rand_pos_rel(rng, f.dom, rng.choice([0, .3, .6]), rng.choice([0, .3])) if f.rel \
+            else rand_pos_set(rng, f.dom, rng.choice([0, .3, .6]))
+        mts.append((pos, rng.choice(vals)))
+    # exact duplicates with other values, in both orders
+    for _ in range(rng.choice([0, 1, 2, 3])):
+        pos, _v = rng.choice(mts)
+        mts.insert(rng.randrange(len(mts) + 1), (pos, rng.choice(vals)))
+    parts = ["coll", name, f.name, mode, deflt]
+    for pos, v in mts:
+        parts += [";"] + pos + ["=>", v]
+    ctx.emit(" ".join(parts))
+    ctx.edges[name] = f
+    return name
+
+
 def gen_C03(rng):
     ctx = Ctx(rng)
     rel = rng.random() < 0.5
     preamble(ctx, rel, ranges=("bool", "int", "int", "real"), nforests=3)
+    if rng.random() < 0.6:
+        fe = Forest("FE", ctx.doms[0], rel, "int", "evp", rng.choice(RULES_REL if rel else RULES_SET), rand_opts(rng))
+        ctx.emit(fe.decl())
+        for _ in range(rng.randint(1, 5)):
+            r = rng.random()
+            if r < 0.8:
+                gen_coll_evp(ctx, fe)
+            elif r < 0.9:
+                n = ctx.fresh()
+                ctx.emit("const %s FE %s" % (n, rng.choice(["0", "3", "inf"])))
+            else:
+                n = ctx.fresh()
+                pos = rand_pos_rel(rng, fe.dom, .3, .3) if rel else rand_pos_set(rng, fe.dom, .3)
+                ctx.emit(" ".join(["minterm", n, "FE", "inf", rng.choice(["0", "2", "7"]), ":"] + pos))
     for _ in range(rng.randint(4, 10)):
         f = rng.choice(ctx.forests)
         r = rng.random()
@@ -278,7 +352,129 @@ def gen_C04(rng):
     return ctx.text()
 
 
-ARITH = ["plus", "minus", "mult", "max", "min", "distmin"]
+def gen_C04_cross(rng):
+    """cross products of sets held in (possibly distinct) set forests, with
+    operands being replaced and released between calls (handle reuse)"""
+    ctx = Ctx(rng)
+    ctx.emit("init " + rand_ctopts(rng))
+    d = rand_domain(rng, "D", False, 24, 3)
+    ctx.emit(d.decl())
+    sets = [Forest("S%d" % i, d, False, "bool", "mt", rng.choice(RULES_SET), rand_opts(rng))
+            for i in range(rng.choice([1, 2, 2, 3]))]
+    rels = [Forest("R%d" % i, d, True, "bool", "mt", rng.choice(RULES_REL), rand_opts(rng))
+            for i in range(rng.choice([1, 2]))]
+    for f in sets + rels:
+        ctx.emit(f.decl())
+    held = {}
+    for i in range(rng.randint(1, 3)):
+        f = rng.choice(sets)
+        n = "a%d" % i
+        gen_coll(ctx, f, n, nmax=6)
+        held[n] = f
+    for rnd in range(rng.randint(3, 9)):
+        r = rng.random()
+        setnames = [e for e in held if not held[e].rel]
+        if r < 0.55 and setnames:
+            a, b = rng.choice(setnames), rng.choice(setnames)
+            out = rng.choice(rels)
+            n = "x%d" % rnd
+            ctx.emit("apply %s %s cross %s %s" % (n, out.name, a, b))
+            held[n] = out
+            if rng.random() < 0.3:
+                ctx.emit("show %s" % a)
+                ctx.emit("show %s" % b)
+        elif r < 0.8:
+            # replace an operand: release it, build another set under the same name
+            f = rng.choice(sets)
+            n = rng.choice(setnames) if setnames and rng.random() < 0.7 else "b%d" % rnd
+            if n in held:
+                ctx.emit("release %s" % n)
+                f = held[n] if rng.random() < 0.7 else f
+            gen_coll(ctx, f, n, nmax=6)
+            held[n] = f
+        elif r < 0.9 and len(held) > 1:
+            v = rng.choice(list(held))
+            ctx.emit("release %s" % v)
+            del held[v]
+        else:
+            rn = [e for e in held if held[e].rel]
+            if len(rn) >= 2:
+                a, b = rng.choice(rn), rng.choice(rn)
+                out = rng.choice(rels)
+                n = "y%d" % rnd
+                ctx.emit("apply %s %s %s %s %s" % (n, out.name, rng.choice(SETOPS), a, b))
+                held[n] = out
+    return ctx.text()
+
+
+def gen_reuse(rng, family=None):
+    """One operand stays, the other is rebuilt with different contents and
+    released after every call (so its nodes die and their handles are
+    recycled while compute-table entries that mention them still exist).
+    Operands live in distinct forests where the operation allows it."""
+    ctx = Ctx(rng)
+    family = family or rng.choice(["set", "cross", "arith", "image"])
+    ctx.emit("init " + (rand_ctopts(rng) if rng.random() < 0.5 else ""))
+    if family in ("cross", "image"):
+        d = rand_domain(rng, "D", False, 27, 3)
+    else:
+        d = rand_domain(rng, "D", rng.random() < 0.5, 200, 3)
+    ctx.emit(d.decl())
+    rel = family not in ("cross", "image") and (len(d.sizes) <= 3 and rng.random() < 0.5)
+    if family == "set":
+        rg = "bool"
+    elif family == "arith":
+        rg = rng.choice(["int", "real"])
+    else:
+        rg = "bool"
+    rules = RULES_REL if rel else RULES_SET
+    # policies of the volatile operand's forest: default deletion most of the time
+    def mkf(name, isrel, rgx, opts=None):
+        f = Forest(name, d, isrel, rgx, "mt", rng.choice(RULES_REL if isrel else RULES_SET),
+                   rand_opts(rng) if opts is None else opts)
+        ctx.emit(f.decl())
+        return f
+    if family == "cross":
+        fa, fb = mkf("FA", False, "bool"), mkf("FB", False, "bool", rng.choice(["", "", "del=pess", "del=opt"]))
+        fr = mkf("FR", True, "bool")
+        ops = ["cross"]
+    elif family == "image":
+        fa = mkf("FA", False, "bool")
+        fb = mkf("FB", True, "bool", rng.choice(["", "", "del=pess"]))
+        fr = mkf("FR", False, "bool")
+        ops = ["post", "pre"]
+    else:
+        fa, fb = mkf("FA", rel, rg), mkf("FB", rel, rg, rng.choice(["", "", "del=pess", "del=opt"]))
+        fr = rng.choice([fa, fb, mkf("FR", rel, rg)])
+        ops = SETOPS if family == "set" else ["plus", "minus", "max", "min", "mult"] if rg == "int" \
+            else ["plus", "minus", "max", "min"]
+    # the persistent operand
+    gen_coll(ctx, fa, "A", nmax=8)
+    swap = rng.random() < 0.3 and family in ("set", "arith")
+    keep = rng.random() < 0.5
+    for rnd in range(rng.randint(3, 8)):
+        # volatile operand: few minterms, same shape every round => same handles
+        if fb.rel:
+            gen_rel_minterms(ctx, fb, "B", nmax=2, p_dc=rng.choice([0, 0.3]), p_same=rng.choice([0, 0.3]))
+        else:
+            parts = ["coll", "B", fb.name, "max", "0"]
+            vals = ["1"] if fb.range == "bool" else [v for v in value_pool(rng, fb) if int(v) > 0]
+            for _ in range(rng.choice([1, 1, 2])):
+                parts += [";"] + rand_pos_set(rng, d, rng.choice([0, 0, 0.3])) + ["=>", rng.choice(vals)]
+            ctx.emit(" ".join(parts))
+            ctx.edges["B"] = fb
+        op = rng.choice(ops)
+        x, y = ("B", "A") if swap else ("A", "B")
+        ctx.emit("apply C%d %s %s %s %s" % (rnd, fr.name, op, x, y))
+        ctx.emit("release B")
+        if not keep:
+            ctx.emit("release C%d" % rnd)
+        if rng.random() < 0.15:
+            ctx.emit("show A")
+    return ctx.text()
+
+
+ARITH = ["plus", "minus", "mult", "mult", "max", "min", "distmin"]
 CMP = ["eq", "ne", "lt", "le", "gt", "ge"]
 
 
@@ -493,6 +689,157 @@ def gen_C18(rng, nops=400):
     L.append("mm check M")
     L.append("mm del M")
     return "\n".join(L) + "\n"
+
+
+def rand_mask(rng, f):
+    out = []
+    for sz in f.dom.sizes:
+        if f.rel:
+            fr = "x" if rng.random() < 0.6 else str(rng.randrange(sz))
+            r = rng.random()
+            to = "x" if r < 0.5 else ("=" if r < 0.7 else str(rng.randrange(sz)))
+            out += [fr, to]
+        else:
+            out.append("x" if rng.random() < 0.6 else str(rng.randrange(sz)))
+    return " ".join(out)
+
+
+def gen_C11(rng):
+    ctx = Ctx(rng)
+    rel = rng.random() < 0.5
+    preamble(ctx, rel, ranges=("bool", "int", "int", "real"), nforests=rng.choice([2, 3]), maxpts=300)
+    for _ in range(rng.randint(2, 5)):
+        gen_leaf(ctx, rng.choice(ctx.forests))
+    for _ in range(rng.randint(0, 4)):
+        names = list(ctx.edges)
+        a, b = rng.choice(names), rng.choice(names)
+        if ctx.edges[a].range == ctx.edges[b].range:
+            fr = rng.choice([f for f in ctx.forests if f.range == ctx.edges[a].range])
+            n = ctx.fresh()
+            op = rng.choice(SETOPS) if fr.range == "bool" else rng.choice(["plus", "max", "min", "minus"])
+            ctx.emit("apply %s %s %s %s %s" % (n, fr.name, op, a, b))
+            ctx.edges[n] = fr
+    for e in list(ctx.edges):
+        f = ctx.edges[e]
+        ctx.emit("iter %s" % e)
+        for _ in range(rng.randint(1, 3)):
+            ctx.emit("iter %s %s" % (e, rand_mask(rng, f)))
+        ctx.emit("card %s" % e)
+    return ctx.text()
+
+
+def gen_C15(rng):
+    ctx = Ctx(rng)
+    preamble(ctx, False, ranges=("bool",), nforests=rng.choice([1, 2]), maxpts=200)
+    fi = Forest("FI", ctx.doms[0], False, "int", "idx", "fr", rand_opts(rng))
+    ctx.emit(fi.decl())
+    n = 0
+    for _ in range(rng.randint(2, 5)):
+        f = rng.choice(ctx.forests)
+        r = rng.random()
+        if r < 0.1:
+            a = gen_const(ctx, f)       # empty or full set
+        elif r < 0.2:
+            a = ctx.fresh()
+            ctx.emit("const %s %s 0" % (a, f.name))
+            ctx.edges[a] = f
+        else:
+            a = gen_coll(ctx, f, nmax=rng.choice([4, 10, 30]))
+        x = "X%d" % n
+        n += 1
+        ctx.emit("unary %s FI index %s" % (x, a))
+        ctx.emit("card %s" % a)
+        ctx.emit("getelem %s -2 %d" % (x, ctx.doms[0].npoints(False) + 1))
+        ctx.emit("iter %s" % a)
+    return ctx.text()
+
+
+def gen_rel_minterms(ctx, f, name, nmax=6, p_dc=None, p_same=None):
+    rng = ctx.rng
+    n = rng.choice([1, 2, 3, 4, nmax])
+    p_dc = rng.choice([0.0, 0.2, 0.5]) if p_dc is None else p_dc
+    p_same = rng.choice([0.0, 0.3, 0.6]) if p_same is None else p_same
+    parts = ["coll", name, f.name, "max", "0"]
+    for _ in range(n):
+        v = "1" if f.range == "bool" else str(rng.choice([1, 2, 3, 4, 5])) if f.range == "int" \
+            else str(rng.choice([32, 64, 96, 128, 160]))
+        parts += [";"] + rand_pos_rel(rng, f.dom, p_dc, p_same) + ["=>", v]
+    ctx.emit(" ".join(parts))
+    ctx.edges[name] = f
+
+
+def gen_C09(rng):
+    ctx = Ctx(rng)
+    ctx.emit("init")
+    d = rand_domain(rng, "D", False, 60, 3)
+    ctx.emit(d.decl())
+    ints = rng.random() < 0.35
+    rg = "int" if ints else "bool"
+    sets = [Forest("S%d" % i, d, False, rg, "mt", rng.choice(RULES_SET), rand_opts(rng)) for i in range(rng.choice([1, 2]))]
+    rels = [Forest("R%d" % i, d, True, rg, "mt", rng.choice(RULES_REL), rand_opts(rng)) for i in range(rng.choice([1, 2, 3]))]
+    for f in sets + rels:
+        ctx.emit(f.decl())
+    for i in range(rng.randint(1, 3)):
+        f = rng.choice(sets)
+        gen_coll(ctx, f, "s%d" % i)
+    for i in range(rng.randint(1, 3)):
+        gen_rel_minterms(ctx, rng.choice(rels), "r%d" % i)
+    ss = [e for e in ctx.edges if not ctx.edges[e].rel]
+    rr = [e for e in ctx.edges if ctx.edges[e].rel]
+    for _ in range(rng.randint(3, 8)):
+        s, r = rng.choice(ss), rng.choice(rr)
+        out = rng.choice(sets)
+        n = ctx.fresh()
+        if ints:
+            if rng.random() < 0.5:
+                ctx.emit("apply %s %s vm %s %s" % (n, out.name, s, r))
+            else:
+                ctx.emit("apply %s %s mv %s %s" % (n, out.name, r, s))
+        else:
+            ctx.emit("apply %s %s %s %s %s" % (n, out.name, rng.choice(["post", "pre"]), s, r))
+            ctx.edges[n] = out
+            ss.append(n)
+    return ctx.text()
+
+
+def gen_C08(rng):
+    ctx = Ctx(rng)
+    ctx.emit("init " + rand_ctopts(rng))
+    d = rand_domain(rng, "D", False, 40, 3)
+    ctx.emit(d.decl())
+    sets = [Forest("S%d" % i, d, False, "bool", "mt", rng.choice(RULES_SET), rand_opts(rng)) for i in range(rng.choice([1, 2]))]
+    rels = [Forest("R%d" % i, d, True, "bool", "mt", rng.choice(RULES_REL), rand_opts(rng)) for i in range(rng.choice([1, 2]))]
+    for f in sets + rels:
+        ctx.emit(f.decl())
+    for rnd in range(rng.randint(1, 3)):
+        s = "s%d" % rnd
+        r = "r%d" % rnd
+        fs = rng.choice(sets)
+        parts = ["coll", s, fs.name, "max", "0"]
+        for _ in range(rng.choice([1, 1, 2, 3])):
+            parts += [";"] + rand_pos_set(rng, d, rng.choice([0, 0, 0.3])) + ["=>", "1"]
+        ctx.emit(" ".join(parts))
+        ctx.edges[s] = fs
+        fr = rng.choice(rels)
+        gen_rel_minterms(ctx, fr, r, nmax=8, p_dc=rng.choice([0, 0.15, 0.3]), p_same=rng.choice([0.2, 0.5, 0.8]))
+        res = []
+        algos = ["reach_fs", "reach_nofs", "reach_sat"] if rng.random() < 0.7 else \
+                ["rreach_fs", "rreach_nofs", "rreach_sat"]
+        if fr.rule != "ir":
+            # known finding (see known_findings.json): saturation mis-handles relation
+            # forests that are not identity-reduced; probed by corpus/C08/*.script
+            algos = algos[:2] + [algos[0]]
+        rng.shuffle(algos)
+        for al in algos:
+            n = ctx.fresh()
+            # all algorithms into the same forest so that == is meaningful
+            ctx.emit("apply %s %s %s %s %s" % (n, fs.name, al, s, r))
+            res.append(n)
+        ctx.emit("eq %s %s" % (res[0], res[1]))
+        ctx.emit("eq %s %s" % (res[1], res[2]))
+        if rng.random() < 0.3:
+            ctx.emit("clearct")
+    return ctx.text()
 
 
 CT_STYLES = ["mc", "mu", "oc", "ou"]
